@@ -145,6 +145,20 @@ func (c *c04SubConn) FetchEvents(s, e *big.Int) ([]*parser.Event, error) {
 	}}}, nil
 }
 
+// mutable variants for the sequence op: one handler instance, the chain head changes between steps
+type c04LatestVar struct{ latest *string }
+
+func (c c04LatestVar) LatestBlock() (*big.Int, error) { return c04Latest{*c.latest}.LatestBlock() }
+
+type c04BtcFetcherVar struct{ head *string }
+
+func (c c04BtcFetcherVar) GetBestBlockHash() (*chainhash.Hash, error) {
+	return c04BtcFetcher{*c.head}.GetBestBlockHash()
+}
+func (c c04BtcFetcherVar) GetBlockVerboseTx(h *chainhash.Hash) (*btcjson.GetBlockVerboseTxResult, error) {
+	return c04BtcFetcher{*c.head}.GetBlockVerboseTx(h)
+}
+
 func retryMsg(h string) *message.Message {
 	return message.NewMessage(2, 1, retry.RetryMessageData{SourceDomainID: 1, DestinationDomainID: 2,
 		BlockHeight: bigArg(h), ResourceID: [32]byte{1}}, "retry-1-2", retry.RetryMessageType, timeZero())
@@ -214,7 +228,62 @@ func init() {
 		}
 		return "fetched:" + strings.Join(c.fetched, ",")
 	}
+	// seq <kind> <conf> <k> <steps>  =>  outputs of the steps, '|'-separated.
+	// All steps run against ONE set of objects wired like app.Run wires them: the chain config's BlockConfirmations
+	// *big.Int is shared by the listener, the retry message handler and (EVM) the retry-by-tx path; the retry handler is
+	// one instance for the whole sequence.   steps (';'): r,<latest>,<h> retry by height | t,<latest>,<receipt> retry by
+	// tx hash (evm) | s,<head>,<start> one iteration of the scan loop (a listener built from the same config)
+	ops["C04.seq"] = func(a []string) string {
+		kind, k := a[0], i64(a[2])
+		cp := bigArg(a[1]) // the shared confirmations value
+		head := ""
+		pb, pe := &c04BtcProcessor{}, &c04Processor{}
+		btcH := btcExecutor.NewRetryMessageHandler(pb, c04BtcFetcherVar{&head}, cp, c04PropStore{}, make(chan []*message.Message, 4))
+		evmH := evmExecutor.NewRetryMessageHandler(pe, c04LatestVar{&head}, c04PropStore{}, cp, make(chan []*message.Message, 4))
+		ab, _ := abi.JSON(strings.NewReader(consts.BridgeABI))
+		data, err := ab.Events["Deposit"].Inputs.NonIndexed().Pack(uint8(2), [32]byte{1}, uint64(7), []byte{1, 2, 3}, []byte{})
+		if err != nil {
+			panic(err)
+		}
+		out := []string{}
+		for _, st := range items(a[3], ";") {
+			f := strings.Split(st, ",")
+			switch f[0] {
+			case "r":
+				head = f[1]
+				if kind == "btc" {
+					pb.calls = nil
+					_, err := btcH.HandleMessage(retryMsg(f[2]))
+					out = append(out, procOut(err, pb.calls))
+				} else {
+					pe.calls = nil
+					_, err := evmH.HandleMessage(retryMsg(f[2]))
+					out = append(out, procOut(err, pe.calls))
+				}
+			case "t":
+				bridge := common.Address{7}
+				l := events.NewListener(&c04EvmClient{latest: f[1], receipt: f[2], bridge: bridge, data: data})
+				ds, err := l.FetchRetryDepositEvents(events.RetryV1Event{TxHash: "0x01"}, bridge, cp)
+				if err != nil {
+					out = append(out, "err")
+				} else {
+					out = append(out, "ok:"+itoa(len(ds)))
+				}
+			case "s":
+				e := newScanEnv(kind, 0, k, 1, parseRounds(f[1]+":n:s"), newMemKV())
+				e.confPtr = cp
+				e.runDirect(startArg(f[2]))
+				out = append(out, e.render())
+			}
+		}
+		return strings.Join(out, "|")
+	}
 	gens["C04"] = genC04
+}
+
+func pow2(n uint) *big.Int { return new(big.Int).Lsh(big.NewInt(1), n) }
+func bigAdd(a *big.Int, d int64) string {
+	return new(big.Int).Add(a, big.NewInt(d)).String()
 }
 
 func genC04(g *G) {
@@ -277,6 +346,67 @@ func genC04(g *G) {
 			g.Emit("subretrymsg", itoa64(h+int64(g.Intn(4))-1), H)
 			g.Emit("subretryevent", itoa64(h+int64(g.Intn(4))-2), H)
 		}
+	}
+	// heights and heads that do not fit machine integers: 2^63-1, 2^63, 2^64-1, 2^64, 2^64+k, 2^65+k, 2^127+k.
+	// Every operand that is a *big.Int in the source takes them (BTC heads are int64, Substrate heads uint32 by type).
+	bases := []*big.Int{new(big.Int).Sub(pow2(63), big.NewInt(1)), pow2(63), new(big.Int).Sub(pow2(64), big.NewInt(1)), pow2(64), pow2(65), pow2(127)}
+	for _, b := range bases {
+		for _, conf := range []int64{0, 2, 5} {
+			C := itoa64(conf)
+			for d := int64(0); d <= 100; d += 19 {
+				H := bigAdd(b, d)
+				// small head against a huge height (low bits of the height at or below the head): must be refused
+				for _, L := range []string{"100", "101", itoa64(95 + conf), "4294967295"} {
+					g.Emit("evmretrytx", L, H, C)
+					g.Emit("evmretrymsg", L, H, C)
+					g.Emit("btcretrymsg", L, H, C)
+					if conf == 0 {
+						g.Emit("subretrymsg", L, H)
+						g.Emit("subretryevent", L, H)
+					}
+				}
+				// huge head around the boundary of a huge height (EVM: both are big.Int), and huge head vs small height
+				for dl := int64(-1); dl <= 2; dl++ {
+					L := bigAdd(b, d+conf+dl)
+					g.Emit("evmretrytx", L, H, C)
+					g.Emit("evmretrymsg", L, H, C)
+				}
+				g.Emit("evmretrytx", H, itoa64(d), C)
+				g.Emit("evmretrymsg", H, itoa64(d), C)
+				if conf > 0 {
+					// scans: EVM head and start are big.Int; BTC start is big.Int
+					g.Emit("scan", "evm", C, "3", "1", H, bigAdd(b, d+3+conf-1)+":n:s;"+bigAdd(b, d+3+conf)+":n:s")
+					g.Emit("scan", "evm", C, "3", "1", itoa64(d), H+":n:s;"+H+":n:s")
+					g.Emit("scan", "btc", C, "1", "1", H, "9223372036854775807:n:s")
+					g.Emit("scan", "evm", C, "3", "1", H, "100:n:s")
+				}
+			}
+		}
+	}
+	// sequences on shared objects (the confirmations *big.Int is shared like in app.Run): retries of various heights,
+	// accepted and refused, interleaved with scan iterations and retries by tx hash
+	for i := 0; i < g.Count(400, 8000); i++ {
+		kind := []string{"btc", "evm"}[g.Intn(2)]
+		conf := int64(1 + g.Intn(4))
+		k := int64(1 + g.Intn(3))
+		n := 2 + g.Intn(5)
+		steps := []string{}
+		for j := 0; j < n; j++ {
+			h := int64(g.Intn(40))
+			switch c := g.Intn(5); {
+			case c <= 1:
+				steps = append(steps, "r,"+itoa64(h+conf+int64(g.Intn(5))-1)+","+itoa64(h))
+			case c == 2 && kind == "evm":
+				steps = append(steps, "t,"+itoa64(h+conf+int64(g.Intn(5))-1)+","+itoa64(h))
+			default:
+				span := k
+				if kind == "btc" {
+					span = 1
+				}
+				steps = append(steps, "s,"+itoa64(h+span-1+conf+int64(g.Intn(4))-1)+","+itoa64(h))
+			}
+		}
+		g.Emit("seq", kind, itoa64(conf), itoa64(k), strings.Join(steps, ";"))
 	}
 	// head histories: length ≤ 8 (thorough 12), monotone and non-monotone, with RPC errors, handler failures, store failures
 	for i := 0; i < g.Count(1500, 40000); i++ {
